@@ -199,7 +199,7 @@ func (w *Proxy) replyBuilder(u *peers.XUpstream, r *peers.ReqRec, up *peers.UpRe
 	if up.Act.Err {
 		f.Status = 2 // server exception, carries the token nevertheless
 	}
-	f.Headers = []peers.KV{{K: "tok", V: r.Token}, {K: "host", V: u.Host}, {K: "att", V: fmt.Sprint(len(r.Upstream))}}
+	f.Headers = []peers.KV{{K: "tok", V: r.Token}, {K: "host", V: u.Host}, {K: "att", V: fmt.Sprint(up.Att)}}
 	n := len(r.Frame) % 97
 	body := append([]byte(r.Token), make([]byte, n)...)
 	for i := 0; i < n; i++ {
@@ -371,6 +371,8 @@ func (w *Proxy) resolved(r *peers.ReqRec) bool {
 }
 
 func (w *Proxy) quiescent() {
+	w.checkC09Quiescent()
+	w.checkC10Quiescent()
 	if w.finalSet {
 		return
 	}
@@ -508,7 +510,7 @@ func (w *Proxy) h1ReplyBuilder(u *peers.H1Upstream, r *peers.ReqRec, up *peers.U
 	if up.Act.Err {
 		m.Status, m.Reason = 500, "Internal Server Error"
 	}
-	m.Headers = []peers.KV{{K: "X-Rtok", V: r.Token}, {K: "X-Host", V: u.Host}, {K: "X-Att", V: fmt.Sprint(len(r.Upstream))}, {K: "Content-Type", V: "application/x-verif"}}
+	m.Headers = []peers.KV{{K: "X-Rtok", V: r.Token}, {K: "X-Host", V: u.Host}, {K: "X-Att", V: fmt.Sprint(up.Att)}, {K: "Content-Type", V: "application/x-verif"}}
 	n := len(r.Frame) % 97
 	body := append([]byte(r.Token), make([]byte, n)...)
 	for i := 0; i < n; i++ {
